@@ -735,6 +735,22 @@ func checkIRE(r *Report, a *Analysis, sc *Scope, rule string) {
 			}
 		}
 	}
+	// the public contract: the exported functions, and (transitively) the helpers whose error one of them returns verbatim
+	contract := map[*ssa.Function]bool{}
+	for fn := range inFamily {
+		if fn.Object() != nil && fn.Object().Exported() {
+			contract[fn] = true
+		}
+	}
+	for changed := true; changed; {
+		changed = false
+		for fn := range inFamily {
+			if !contract[fn] && returnsVerbatimTo(p, fn, contract) {
+				contract[fn] = true
+				changed = true
+			}
+		}
+	}
 	for _, fn := range sortedFns(p, inFamily) {
 		// only functions whose error is the public InvalidResponseError contract: the exported ones and the
 		// helpers they forward verbatim
@@ -742,7 +758,7 @@ func checkIRE(r *Report, a *Analysis, sc *Scope, rule string) {
 		fc.ensureConds()
 		r.Fn(p.FnName(fn))
 		exportedAPI := fn.Object() != nil && fn.Object().Exported()
-		forwardsOnly := !exportedAPI && !returnsVerbatimTo(p, fn, inFamily)
+		forwardsOnly := !exportedAPI && !contract[fn]
 		for _, ret := range fc.Returns() {
 			if len(ret.Results) != 2 {
 				continue
